@@ -53,6 +53,11 @@ CHECKS = {
   "design_ref": "DESIGN.md section 3 C20",
   "note": TRUST + " A process death is simulated by panicking out of the hook (for a torn write after writing half of the pending bytes); durability of completed writes and renames is assumed. The stash file is not covered yet.",
   "technique": "TLA+ model with crash actions checked by TLC (invariants), its behaviours replayed into the code through build-tag hooks, TLA+ trace acceptor"},
+ "C15": {
+  "text": "Trace validation against an executable TLA+ definition, on TLC-enumerated inputs: Format.tla is an interpreter of the control language (prefix parameters incl. v and #, modifiers, ~A ~S ~D ~B ~O ~X ~nR, English and Roman ~R on decimal digit sequences of any length, ~C ~% ~& ~| ~~ ~T ~* ~? ~( ~[ ~{ ~^ ~P, nested blocks, argument navigation, the errors the definitions require) following CLHS 22.3 and, where slip's own documentation defines a directive differently (~T column arithmetic, ~& at the start), that documentation. FormatGen.tla enumerates the case grid: one TLC initial state per (directive, parameter combination, modifiers, argument) of seven families plus random compositions of up to 4 pieces incl. blocks built from pieces (simulation mode). Every case is executed with destination nil, t and a string stream; the acceptor FormatTrace under TLC recomputes the text, compares the three destinations, and checks princ-to-string / prin1-to-string of every argument against ~A / ~S.",
+  "design_ref": "DESIGN.md section 3 C15",
+  "note": TRUST + " Cases whose consequences the definitions leave open (wrong kind of argument, ~* outside the arguments, column width 0) are counted and not judged. Two open findings pinned by slip's own suite: strings inside lists keep their quotes under princ (modelled as a named deviation in Format.tla, so those calls are still judged exactly) and ~^ (matched by the presence of the directive).",
+  "technique": "executable TLA+ definition (interpreter) evaluated by TLC over recorded calls (trace validation), inputs enumerated by TLC from a TLA+ generator (initial-state grid + simulation)"},
  "C16": {
   "text": "Trace validation of logged relations plus model-generated table histories: the harness evaluates eq / eql / equal / equalp / sxhash / type-of / typep / subtypep / find-class / coerce over a universe of 35 objects (equal numbers in different representations, zeros and negatives, bignums and ratios built twice, strings and characters differing in case, symbols, nested lists, vectors) and 22 type names and logs the matrices, every call that signals, and the key identity a fresh table implements; EqHash.tla states the laws of the property over those matrices (totality, implication chain, reflexive / symmetric / transitive, equal => same sxhash, typep of own type-of, subtypep reflexive / transitive / agrees with typep on registry-known types, coerce returns the requested type, table key identity covers the table test) and TLC evaluates them, printing the violating tuples. HashGen.tla is the finite-map model: TLC emits one put / get / rem / clr / maphash history per transition of its bounded graph plus random walks of 12; each is executed on 7 key sets x 4 :test values and every step (value, presence, count, maphash contents) is judged by the TLA+ acceptor.",
   "design_ref": "DESIGN.md section 3 C16",
